@@ -10,6 +10,8 @@ Blocks: `blocks=h:0:0,p:2:1,...` — `kind:nterms:initial`, kind ∈ h(am) u(nit
                                                  `a.b.c` of the angles in the slice (angle id = position)
 * `jac layers=L blocks=.. nangles=m idx=default|none|i,j,.. orig=0|1`
                                               → `ok k:blk:start:n:term;...` | `err <kind>`
+  optional `obs=0|1` (is `cost_observable` set; default 1) and `cm=o|s|b` (`cost_method`)
+* `evalkind cm=o|s|b obs=0|1 func=0|1`        → `ok observable` | `ok costfunc` | `err nocostfunc`
 * `prods n=N`                                 → `ok f=w0|w1|.. b=w0|w1|..` words over propagator ids
 * `modify n=N k=K`                            → `ok w` word with `X` at the replaced position
 -/
@@ -32,6 +34,7 @@ def fBlocks? (fs : List String) : Option (List Block) :=
 
 def errName : Err → String
   | .angles => "angles" | .noangles => "noangles" | .funcderiv => "funcderiv"
+  | .noobs => "noobs" | .nocostfunc => "nocostfunc"
 
 def showGate (g : CGate Nat) : String :=
   s!"{g.blk}:{if g.native then 1 else 0}:" ++
@@ -73,10 +76,32 @@ def step (line : String) : String :=
       match idx with
       | none => "bad-op"
       | some idx =>
-        match computeJac (orig == 1) bs L m idx with
+        let obs? : Option Nat := match field? fs "obs" with
+          | none => some 1
+          | some o => if o == "0" then some 0 else if o == "1" then some 1 else none
+        match obs? with
+        | none => "bad-op"
+        | some obs =>
+        let cm := match fStr? fs "cm" with
+          | some "s" => CostMethod.state | some "b" => CostMethod.bitstring | _ => CostMethod.observable
+        match computeJacCfg (obs == 1) cm (orig == 1) bs L m idx with
         | .ok es => "ok " ++ ";".intercalate (es.map showEntry)
         | .error e => "err " ++ errName e
     | _, _, _, _, _ => "bad-op"
+  | some "evalkind" =>
+    match fStr? fs "cm", fNat? fs "obs", fNat? fs "func" with
+    | some c, some obs, some fn =>
+      let cm? := match c with
+        | "o" => some CostMethod.observable | "s" => some CostMethod.state
+        | "b" => some CostMethod.bitstring | _ => none
+      match cm? with
+      | none => "bad-op"
+      | some cm =>
+        match evalKind cm (obs == 1) (fn == 1) with
+        | .ok true => "ok observable"
+        | .ok false => "ok costfunc"
+        | .error e => "err " ++ errName e
+    | _, _, _ => "bad-op"
   | some "prods" =>
     match fNat? fs "n" with
     | some n =>
